@@ -137,8 +137,12 @@ func TestC14(t *testing.T) {
 					got, err := ses.client(c.Port).Do(c)
 					atomic.AddInt64(&inflight, -1)
 					if err != nil {
-						// a reply that did not arrive within two minutes: not decided here
-						// (hangs are C10/C12/C13's subject), reported as inconclusive
+						// a reply that did not arrive within two minutes: a hang if fresh
+						// connections are served promptly meanwhile, else not decided here
+						if err == wire.ErrTimeout && hangProbe(st, ses.client(c.Port)) {
+							problems[ci] = fmt.Sprintf("connection %d step %d %s: no reply within two minutes, and still none ten seconds later, while five fresh connections were each answered within two seconds: the request hangs\nits own sequence: %s", ci, s, c, strings.Join(cmdsString(plans[ci][:s+1]), " | "))
+							return
+						}
 						atomic.AddInt64(&timedOut, 1)
 						return
 					}
@@ -153,6 +157,11 @@ func TestC14(t *testing.T) {
 		wg.Wait()
 		close(stopHostile)
 		hwg.Wait()
+		for _, p := range problems {
+			if p != "" {
+				timedOut = 0 // a decided failure outranks the undecided connections
+			}
+		}
 		if timedOut > 0 {
 			undecided(t, rec, fmt.Sprintf("C14 %s: %d connections waited more than two minutes for a reply", cfg, timedOut))
 		}
